@@ -95,6 +95,39 @@ def index_events(events):
     return deploy, surveys, wx, plancost, repairs
 
 
+def survey_workable(events):
+    """{id(survey event): bool} -- was the weather at the site's cell inside the method's envelope
+    (cube values and envelope from the "wx" event; True when the method does not consider weather).
+    Independent of the code's own `site_visit` flag."""
+    pending = {}
+    out = {}
+    for e in events:
+        if e[0] == "wx":
+            pending.setdefault((e[1], e[2], e[3]), []).append(e)
+        elif e[0] == "survey":
+            if not e[15]:
+                out[id(e)] = True
+                continue
+            lst = pending.get((e[1], e[2], e[3]), [])
+            w = lst.pop(0) if lst else None
+            if w is None or w[5] is None:
+                out[id(e)] = None
+            else:
+                (_, _, _, _, verdict, t, wi, pr, env) = w
+                out[id(e)] = env[0] <= t <= env[1] and env[2] <= wi <= env[3] and env[4] <= pr <= env[5]
+    return out
+
+
+def sums_of(values, n, cap=4096):
+    """all totals obtainable by adding n (not necessarily distinct) members of `values`"""
+    acc = {0.0}
+    for _ in range(n):
+        acc = {a + v for a in acc for v in values}
+        if len(acc) > cap:
+            return None
+    return acc
+
+
 # ------------------------------------------------------------------------------------------------
 # C08
 # ------------------------------------------------------------------------------------------------
@@ -111,6 +144,10 @@ def oracle_c08(ctx, cfg, prog, events, violate):
         for e in evs:
             (_, _, _, site, crew, r0, r1, s_time, travel, p0, p1, complete, in_prog, visited, last, wchk) = e
             n_visits += 1
+            # hypothesis ReqOk of the day theorems, measured on what the real schedule handed over
+            req_ok = (travel >= 0 and p0 >= 0 and (s_time is None or p0 <= s_time or m["deployment_type"] == "stationary")
+                      and (m["deployment_type"] != "stationary" or p0 == 0))
+            ctx.count("hyp:ReqOk-ok" if req_ok else "hyp:ReqOk-miss")
             st = per_crew.setdefault(crew, {"spent": 0, "home": 0, "first": r0})
             info = {"prog": prog, "day": day, "method": method, "site": site, "event": e, "budget": budget}
             if r0 < 0 or r1 < 0:
@@ -152,7 +189,44 @@ def oracle_c08(ctx, cfg, prog, events, violate):
         if len(per_crew) > n_crews or (dep is not None and dep[10] > n_crews):
             violate("C08:wholerun:more-crews-than-available", "more crews deployed than the method has",
                     {"prog": prog, "day": day, "method": method})
+    requeue_check(ctx, cfg, prog, events, violate)
     return n_visits
+
+
+def requeue_check(ctx, cfg, prog, events, violate):
+    """'that request stays queued': after an unworkable visit of a routine method the site must be
+    planned again later.  A request that was put back has priority class 2; a request issued after a
+    later completion of another site is class 3, so if such a newer request is planned on some later
+    day while the unworkable site never is again, the request was lost."""
+    workable = survey_workable(events)
+    plans = {}      # method -> [(day, set(sites))]
+    completed = {}  # method -> [(day, site)]
+    for e in events:
+        if e[0] == "deploy":
+            plans.setdefault(e[2], []).append((e[1], set(e[3])))
+        elif e[0] == "survey" and e[11]:
+            completed.setdefault(e[2], []).append((e[1], e[3]))
+    for e in events:
+        if e[0] != "survey" or workable.get(id(e)) is not False:
+            continue
+        day, method, site = e[1], e[2], e[3]
+        if cfg["methods"][method]["is_follow_up"] or cfg["methods"][method]["deployment_type"] == "stationary":
+            continue
+        later = [(d, ps) for (d, ps) in plans.get(method, []) if d > day]
+        if any(site in ps for (_, ps) in later):
+            ctx.count("wholerun:unworkable-request-planned-again")
+            continue
+        # newer (class 3) request seen in a later plan?
+        newer = False
+        for (d1, s1) in completed.get(method, []):
+            if d1 >= day and s1 != site and any(d > d1 and s1 in ps for (d, ps) in later):
+                newer = True
+                break
+        if newer:
+            violate("C08:wholerun:unworkable-request-lost", "after an unworkable visit the site is never planned again although newer requests are",
+                    {"prog": prog, "day": day, "method": method, "site": site})
+        else:
+            ctx.count("wholerun:unworkable-request-pending-at-end")
 
 
 def run_c08(ctx):
@@ -211,6 +285,7 @@ def check_columns():
 def oracle_c10(ctx, cfg, res, prog, sim, events, violate):
     col_cost, col_rep, col_nat, col_meth = check_columns()
     deploy, surveys, wx, plancost, repairs = index_events(events)
+    workable = survey_workable(events)
     ts = res.timeseries(prog, sim)
     if ts is None:
         ctx.note("no timeseries for %s/%s" % (prog, sim))
@@ -258,7 +333,13 @@ def oracle_c10(ctx, cfg, res, prog, sim, events, violate):
                     info["expected"] = exp
                     violate("C10:per_day:stationary-not-per-planned-site", "whole run: stationary per-day cost != unit cost x planned sites", info)
             else:
-                crews = {e[4] for e in evs if e[13]}
+                # "deployed crew-day" (reading fixed in DESIGN 5.10): a crew that was sent to at least one
+                # site whose weather allowed work -- computed from the weather, not from the code's
+                # site_visit flag
+                crews = {e[4] for e in evs if workable.get(id(e)) is not False}
+                idle = {c for c in crews if all((ee[8] == 0 and ee[10] == ee[9] and not ee[11]) for ee in evs if ee[4] == c)}
+                if idle:
+                    ctx.count("wholerun:crew-deployed-without-travel")
                 exp = unit * len(crews)
                 ctx.nontrivial.add(("wr-day", method, len(crews)))
                 if dep[4] != exp:
@@ -283,19 +364,45 @@ def oracle_c10(ctx, cfg, res, prog, sim, events, violate):
             violate("C10:no-methods:cost-nonzero", "whole run: a program without methods has a non-zero cost", info)
         total += _f(row[col_cost])
         n_eval += 1
-    # one booking per program-repaired leak
+    # repairs, from the records the run wrote (not from the wrapped code path): every leak repaired by
+    # the program has "Date Repaired or Expired" = day after its last active day, so its cost must be
+    # in the repair column of the day before that date -- exactly once -- and nowhere else; natural
+    # repairs likewise in the natural column only
     em = res.emissions(prog, sim) or []
-    try:
-        from constants.output_file_constants import EMIS_DATA_COL_ACCESSORS as eca
+    from collections import Counter
 
-        n_prog_rep = sum(1 for r in em if r.get(eca.STATUS) == "repaired" and r.get(eca.TAGGED_BY) not in ("natural", "", None, "N/A"))
-        n_booked = sum(1 for evs in repairs.values() for e in evs if e[2] == "program")
-        ctx.nontrivial.add(("wr-repairs", min(n_prog_rep, 5)))
-        if n_prog_rep != n_booked:
-            violate("C10:repair:not-once", "whole run: number of repair-cost bookings != number of leaks repaired by the program",
-                    {"prog": prog, "sim": sim, "repaired_by_program": n_prog_rep, "bookings": n_booked})
-    except ImportError:
-        pass
+    prog_days, nat_days = Counter(), Counter()
+    for r in em:
+        if r.get("Status") != "repaired":
+            continue
+        d = res.day_index(r.get("Date Repaired or Expired"))
+        if d is None:
+            continue
+        if r.get("Tagged By") == "natural":
+            nat_days[d - 1] += 1
+        else:
+            prog_days[d - 1] += 1
+    costs = [float(c) for c in cfg["repair_cost"]]
+    ctx.nontrivial.add(("wr-repairs", min(sum(prog_days.values()), 5), len(costs) > 1))
+    for d, row in enumerate(ts):
+        for (col, days, kind) in ((col_rep, prog_days, "program"), (col_nat, nat_days, "natural")):
+            n = days.get(d, 0)
+            got = _f(row[col])
+            ok = sums_of(costs, n)
+            info = {"prog": prog, "sim": sim, "day": d, "kind": kind, "column": got, "records_repaired_that_day": n,
+                    "configured_costs": costs}
+            if ok is not None and got not in ok:
+                violate("C10:repair:not-once", "whole run: %s repair cost column != one configured repair cost per leak the "
+                        "emissions summary shows as repaired on that day" % kind, info)
+            booked = [e for e in repairs.get(d, []) if e[2] == kind]
+            if 0.0 not in costs and len(booked) != n:
+                violate("C10:repair:not-once", "whole run: number of %s repair bookings on a day != number of records repaired that day" % kind, info)
+            if any(e[3] not in costs for e in booked):
+                violate("C10:repair:amount-not-configured", "whole run: a booked repair amount is not one of the configured repair costs", info)
+            n_eval += 1
+    if any(d < 0 or d >= len(ts) for d in list(prog_days) + list(nat_days)):
+        violate("C10:repair:wrong-day", "whole run: a record's repair date lies outside the simulated days",
+                {"prog": prog, "sim": sim})
     # summary file
     summ = res.summary("Timeseries Summary") or []
     for r in summ:
